@@ -485,6 +485,20 @@ bool SPxBasisBase<R>::readBasis(
       rNames = p_rowNames;
    }
 
+   /* release the temporary name sets also if the stream or the parser throws */
+   struct NameSetGuard
+   {
+      NameSet*& ptr;
+      ~NameSetGuard()
+      {
+         if(ptr != nullptr)
+         {
+            ptr->~NameSet();
+            spx_free(ptr);
+         }
+      }
+   } rowNamesGuard{p_rowNames}, colNamesGuard{p_colNames};
+
    /* load default basis if necessary */
    if(status() == NO_PROBLEM)
       load(theLP, false);
